@@ -1,6 +1,7 @@
 package main
 
 import (
+	"go/ast"
 	"fmt"
 	"go/token"
 	"go/types"
@@ -341,10 +342,74 @@ func (fc *FnCtx) applyContract(callee *ssa.Function, c *Contract, args []Val, bi
 	}
 	env.st, env.old = post, pre
 	env.results = splitResults(res, callee.Signature.Results())
+	// "vars k T": the callee proves its postconditions for an arbitrary k, provided no precondition mentions k; the
+	// caller may then use them for every k (universally quantified here). Otherwise k stays one unknown constant.
+	quantVars := len(c.Vars) > 0 && !c.IsLemma
+	for _, r := range c.Requires {
+		for _, v := range c.Vars {
+			if mentionsIdent(r, v[0]) {
+				quantVars = false
+			}
+		}
+	}
 	for _, e := range c.Ensures {
-		post.assume(implies(cond, env.evalBool(e)))
+		var used [][2]string
+		if quantVars {
+			for _, v := range c.Vars {
+				if mentionsIdent(e, v[0]) {
+					used = append(used, v)
+				}
+			}
+		}
+		if len(used) == 0 {
+			post.assume(implies(cond, env.evalBool(e)))
+			continue
+		}
+		var binders []string
+		saved := map[string]Val{}
+		okSorts := true
+		for _, v := range used {
+			te, err := parseExprSrc(v[1])
+			if err != nil {
+				userErr("contract variable %s: %v", v[0], err)
+			}
+			t := env.resolveType(te)
+			ls := layout(t)
+			if len(ls) != 1 {
+				okSorts = false
+				break
+			}
+			q := qsym(fc.fresh("qv_" + v[0]))
+			saved[v[0]] = env.vars[v[0]]
+			env.vars[v[0]] = Val{T: t, L: []string{q}}
+			binders = append(binders, fmt.Sprintf("(%s %s)", q, ls[0].Sort))
+		}
+		if okSorts {
+			env.bound["!callvars"] = Val{} // evaluating under a binder: no side assumptions on the current state
+			body := env.evalBool(e)
+			delete(env.bound, "!callvars")
+			fc.hasQuant = true
+			post.assume(implies(cond, fmt.Sprintf("(forall (%s) %s)", strings.Join(binders, " "), body)))
+		}
+		for k, v := range saved {
+			env.vars[k] = v
+		}
+		if !okSorts {
+			post.assume(implies(cond, env.evalBool(e)))
+		}
 	}
 	return res
+}
+
+func mentionsIdent(e ast.Expr, name string) bool {
+	found := false
+	ast.Inspect(e, func(n ast.Node) bool {
+		if id, ok := n.(*ast.Ident); ok && id.Name == name {
+			found = true
+		}
+		return !found
+	})
+	return found
 }
 
 func splitResults(res Val, tp *types.Tuple) []Val {
@@ -968,6 +1033,10 @@ func (fc *FnCtx) doAppend(args []Val, pos token.Pos, resT types.Type) Val {
 	nref := fc.allocRef()
 	rbase := ite(fits, base, nref)
 	roff := ite(fits, off, bvLit(0, 64))
+	if fc.appendExact(et, t, tlen) {
+		// the fresh array is laid out at the same (model-level) offset as the old slice: see appendElems
+		roff = off
+	}
 	rcap := ite(fits, cp, ncap)
 	res := Val{T: resT, L: []string{rbase, roff, newlen, rcap}}
 	res = fc.nameVal(fc.fresh("app"), res)
@@ -1032,6 +1101,36 @@ func (fc *FnCtx) appendElems(et types.Type, s, t Val, tlen string, res Val, fits
 		for j := uint64(0); j < n; j++ {
 			dst := fc.eltRefNamed(res.L[0], app("bvadd", res.L[1], app("bvadd", s.L[2], bvLit(j, 64))))
 			fc.storeAt(fc.cur, et, dst, vals[j])
+		}
+		return
+	}
+	if fc.appendExact(et, t, tlen) {
+		// append(s, v1..vn) with a literal n, element type other than byte: exact contents.
+		//   in place:   the array of s with the n cells behind len(s) overwritten (quantifier-free)
+		//   reallocated: a fresh array fr that agrees with the old one on the cells of s (one quantified fact with the
+		//                pattern (select fr p); the result keeps the model-level offset of s), then the n stores.
+		//                Cells of the fresh array outside s and the appended values stay unconstrained.
+		n, _ := litU64(tlen)
+		for k, lf := range layout(et) {
+			name := fmt.Sprintf("E|%s|%d", typeKey(et), k)
+			inner := arraySort(bvSort(64), lf.Sort)
+			srt := arraySort(SortRef, inner)
+			old := fc.cur.get(name, srt)
+			oldArr := app("select", old, s.L[0])
+			fr := fc.declareFresh("appelems", inner)
+			pv := qsym(fc.fresh("qp"))
+			fc.hasQuant = true
+			fc.cur.assume(implies(not(fits), fmt.Sprintf("(forall ((%s (_ BitVec 64))) (! (=> (bvult (bvsub %s %s) %s) (= (select %s %s) (select %s %s))) :pattern ((select %s %s))))",
+				pv, pv, s.L[1], s.L[2], fr, pv, oldArr, pv, fr, pv)))
+			inPlace, fresh := oldArr, fr
+			for j := uint64(0); j < n; j++ {
+				v := app("select", app("select", old, t.L[0]), app("bvadd", t.L[1], bvLit(j, 64)))
+				idx := app("bvadd", s.L[1], app("bvadd", s.L[2], bvLit(j, 64)))
+				inPlace = app("store", inPlace, idx, v)
+				fresh = app("store", fresh, idx, v)
+			}
+			na := fc.define(fc.fresh("apparr"), inner, ite(fits, inPlace, fresh))
+			fc.cur.set(name, srt, app("store", old, res.L[0], na))
 		}
 		return
 	}
@@ -1198,4 +1297,13 @@ func isCancelFunc(v ssa.Value) bool {
 
 func (fc *FnCtx) contentOn() bool {
 	return fc.eng.contentMode || (fc.c != nil && fc.c.Content)
+}
+
+// appendExact: append(s, v1..vn) gets the exact content model (see appendElems).
+func (fc *FnCtx) appendExact(et types.Type, t Val, tlen string) bool {
+	if ptrIsThin(et) || typeKey(et) == "uint8" || isStringType(t.T) {
+		return false
+	}
+	n, isLit := litU64(tlen)
+	return isLit && n <= 4
 }
